@@ -168,3 +168,80 @@ def kw(call: ast.Call, name: str, pos: Optional[int] = None) -> Optional[ast.AST
     if pos is not None and pos < len(call.args):
         return call.args[pos]
     return None
+
+
+class ReverseLookup:
+    """a function recognised by role: first-match scan of `<table>.items()` that returns the key whose
+    value matches an argument.  `table_param` is the index of the parameter that is scanned (None when
+    the table is not a parameter, e.g. a module-level registry), `value_param` the index of the
+    parameter the values are compared with (indices among the explicit parameters, `self`/`cls` not
+    counted)."""
+
+    def __init__(self, fn: FunctionInfo, loop: ast.For, test: ast.If, table: ast.AST, key_var: str, val_var: str,
+                 table_param: Optional[int], value_param: Optional[int]) -> None:
+        self.fn, self.loop, self.test, self.table = fn, loop, test, table
+        self.key_var, self.val_var = key_var, val_var
+        self.table_param, self.value_param = table_param, value_param
+
+
+def as_reverse_lookup(fn: FunctionInfo) -> Optional[ReverseLookup]:
+    loops = [n for n in A.walk_no_nested(fn.node) if isinstance(n, ast.For)]
+    if len(loops) != 1:
+        return None
+    lp = loops[0]
+    it = lp.iter
+    if isinstance(it, ast.Call) and isinstance(it.func, ast.Name) and it.func.id == "reversed" and it.args:
+        it = it.args[0]
+    if not (isinstance(it, ast.Call) and isinstance(it.func, ast.Attribute) and it.func.attr == "items" and not it.args):
+        return None
+    if not (isinstance(lp.target, ast.Tuple) and len(lp.target.elts) == 2 and all(isinstance(e, ast.Name) for e in lp.target.elts)):
+        return None
+    kv, vv = lp.target.elts[0].id, lp.target.elts[1].id  # type: ignore[attr-defined]
+    ifs = [s for s in lp.body if isinstance(s, ast.If)]
+    if len(ifs) != 1 or not ifs[0].body or not isinstance(ifs[0].body[-1], ast.Return):
+        return None
+    rv = ifs[0].body[-1].value
+    if not (isinstance(rv, ast.Name) and rv.id == kv):
+        return None
+    params = [a.arg for a in fn.node.args.args]  # type: ignore[attr-defined]
+    if fn.cls is not None and params and params[0] in ("self", "cls") and not getattr(fn, "is_static", False):
+        params = params[1:]
+    table = it.func.value
+    tpi = params.index(table.id) if isinstance(table, ast.Name) and table.id in params else None
+    used = {n.id for n in ast.walk(ifs[0].test) if isinstance(n, ast.Name)}
+    vpi = next((i for i, p in enumerate(params) if p in used and i != tpi), None)
+    if vv not in used:
+        return None
+    return ReverseLookup(fn, lp, ifs[0], table, kv, vv, tpi, vpi)
+
+
+def reverse_lookup_call(prog: Program, caller: FunctionInfo, e: ast.AST) -> Optional[Tuple[ReverseLookup, Optional[ast.AST], Optional[ast.AST]]]:
+    """(recognised function, table argument, value argument) when e calls a reverse-lookup function"""
+    if not isinstance(e, ast.Call):
+        return None
+    nm = (A.dotted(e.func) or "").split(".")[-1]
+    if not nm:
+        return None
+    cands = [f for f in prog.functions if f.name == nm]
+    # prefer the definition visible from the caller: nested in the caller, then same module
+    cands.sort(key=lambda f: (0 if f.parent_fn is caller else 1 if f.module is caller.module else 2))
+    for f in cands:
+        r = as_reverse_lookup(f)
+        if r is None:
+            continue
+
+        def arg(i: Optional[int]) -> Optional[ast.AST]:
+            if i is None:
+                return None
+            params = [a.arg for a in f.node.args.args]  # type: ignore[attr-defined]
+            if f.cls is not None and params and params[0] in ("self", "cls") and not getattr(f, "is_static", False):
+                params = params[1:]
+            if i < len(e.args):
+                return e.args[i]
+            for k_ in e.keywords:
+                if k_.arg == params[i]:
+                    return k_.value
+            return None
+
+        return r, arg(r.table_param), arg(r.value_param)
+    return None
